@@ -1218,6 +1218,9 @@ fn scenarios(tier: &str) -> Vec<C03> {
     // (the answer to a request after a confirm-mandatory broadcast asks for one)
     let bc = vec![Ev::Upd(Pt::B0), Ev::Timeout, Ev::Broadcast(1), Ev::Other, Ev::SolConfirm(true), Ev::UnsConfirm(true), Ev::Disable, Ev::Read(true, false, false, None)];
     v.push(mk("unsol-broadcast-d5-buf5", bc.clone(), 5, true, 5, false, Some(0)));
+    // a solicited series aborted by a broadcast, then a confirmation of something else
+    let pbc = vec![Ev::Upd(Pt::B0), Ev::Read(true, false, false, None), Ev::Broadcast(1), Ev::Other, Ev::SolConfirm(true), Ev::Timeout, Ev::Broadcast(0)];
+    v.push(mk("poll-broadcast-d5-buf5", pbc.clone(), 5, false, 5, false, Some(0)));
     if tier == "thorough" {
         let mut s = mk("overflow-reported-d6-buf2", ovf.clone(), 6, false, 2, false, Some(0));
         s.overflow_model = true;
@@ -1240,6 +1243,9 @@ pub fn replay(scenario: &str, path: &[usize]) -> Option<RunResult> {
     use crate::explore::CaseSpace;
     if scenario == super::c03x::PerType.name() {
         return Some(super::c03x::PerType.run(path[0], true));
+    }
+    if scenario == super::c03x::PairedRelease.name() {
+        return Some(super::c03x::PairedRelease.run(path[0], true));
     }
     if scenario == super::c03x::EventVariations.name() {
         return Some(super::c03x::EventVariations.run(path[0], true));
@@ -1266,6 +1272,7 @@ pub fn check(tier: &str) -> i32 {
     c.cases(&super::c03x::PerType);
     c.cases(&super::c03x::Capacities { id: "C03" });
     c.cases(&super::c03x::EventVariations);
+    c.cases(&super::c03x::PairedRelease);
     for s in super::c03x::series(tier) {
         c.explore(&s);
     }
